@@ -59,8 +59,13 @@ PROPS = {
     'C04': dict(
         props_file='Props/C04.v',
         components=['c04'],
-        comp_names={6: 'node sequence (appendEntries through processRPC on a stepper node)'},
-        rule='follower logs = every non-decreasing term sequence over {1,2,3} of length <=4 (35) x leader logs of length <=5 (56) x previous index 0..5 x 0..3 entries x '
+        comp_names={6: 'node sequence (appendEntries through processRPC on a stepper node)',
+                    101: 'replication scripts on a real cluster vs the composed cluster model with logs (Model/ClusterLog.v)'},
+        rule='(0) composed-model tie (component 101): 2-5 real servers (all goroutines, 1h timers; elections scripted as in C01 component 1) where a real leader stores entries through Apply, '
+             'the REAL setupAppendEntries builds requests for arbitrary (nextIndex, lastIndex), heartbeats are built as replication.go does, and every request built so far can be executed by its '
+             'target\'s real handler at any later time, repeatedly, out of order, after the sender was deposed; after each op every server\'s role/term/vote/last index AND FULL LOG, and the newest request, '
+             'are diffed against Model/ClusterLog.v lstep; the Log Matching / monotone-terms monitor runs on the real logs after every op (200 scripts of 40-100 ops quick, 3000 thorough; the evidence '
+             'lists how many deliveries appended, truncated at a conflict, were duplicates, stale or mismatched); (i) follower logs = every non-decreasing term sequence over {1,2,3} of length <=4 (35) x leader logs of length <=5 (56) x previous index 0..5 x 0..3 entries x '
              'LeaderCommit in {0,2,5} (thorough: all ~1.4e5; quick: 1/14 sample), a sample with a store failure at the 1st/2nd/3rd durable op or a crash cut, each request followed by '
              'its duplicate and a heartbeat; plus follower logs starting above a snapshot boundary. Compared: response, ordered store/FSM call trace, full state incl. log contents. '
              'Non-trivial = an AppendEntries succeeded, or a crash cut/panic happened',
